@@ -42,7 +42,20 @@ Inductive outcome := Refused | Panics | Proceeds.
 
 (* what loading + resolving a typed store does, as far as criteria are concerned;
    validate runs before the mapper is built *)
-Definition load_outcome (locked : bool) (shadows : bool) (t : ctable) (max_end : Z) (ends : list Z) (r : refs) : outcome :=
-  if negb (validate_criteria locked (ct_len t) r && validate_wildcard_ends max_end ends) then Refused
-  else if mapper_panics shadows t || index_panics locked (ct_len t) r then Panics
+(* Store::validate also checks the criteria table itself (criteria::check_criteria_table: no built-in
+   redefined, at most MAX_CRITERIA criteria, no implication cycle) — whether it does is re-read from
+   the source (Extracted.VALIDATE_CHECKS_TABLE) *)
+Definition validate_table (shadows : bool) (t : ctable) : bool :=
+  negb VALIDATE_CHECKS_TABLE || negb (mapper_panics shadows t).
+
+(* peer files fetched by an unlocked run: (redefines a built-in?, table); fetch_single_imported_audit builds a
+   CriteriaMapper from each — after checking the table iff Extracted.PEER_TABLE_CHECKED *)
+Definition peers := list (bool * ctable).
+Definition bad_peer (ps : peers) : bool := existsb (fun '(sh, t) => mapper_panics sh t) ps.
+
+Definition load_outcome (locked : bool) (shadows : bool) (t : ctable) (max_end : Z) (ends : list Z) (r : refs) (ps : peers) : outcome :=
+  if negb (validate_criteria locked (ct_len t) r && validate_wildcard_ends max_end ends && validate_table shadows t) then Refused
+  else if mapper_panics shadows t then Panics
+  else if negb locked && bad_peer ps then (if PEER_TABLE_CHECKED then Refused else Panics)
+  else if index_panics locked (ct_len t) r then Panics
   else Proceeds.
